@@ -70,6 +70,9 @@ pub enum Ctxt {
     /// the wrappers are applied to a choice between the item and another one:
     /// `construct!([item, other]).fallback(..)`
     AltInStack,
+    /// inside a subcommand that is an alternative to a catch-all list of words:
+    /// `construct!([words.many(), sub])` - the failed command must not be re-read as words
+    InCmdBesideWords,
 }
 
 pub const CONTEXTS: &[Ctxt] = &[
@@ -78,6 +81,7 @@ pub const CONTEXTS: &[Ctxt] = &[
     Ctxt::InCmd,
     Ctxt::InAdjacent,
     Ctxt::AltInStack,
+    Ctxt::InCmdBesideWords,
 ];
 
 pub const INVALID: &[&[u8]] = &[b"x1", b"", b"-", b"99999999999999999999", b"1 ", b"7\xff"];
@@ -241,6 +245,16 @@ pub fn build_shape(s: &Shape) -> Built {
             let sub = lvl(seq(vec![sw("s", &["sub-flag"]), node]));
             let mut f = unrelated;
             f.push(alt(vec![cmd("sub", sub)]));
+            let mut a = pre;
+            a.push(b"sub".to_vec());
+            let off = a.len();
+            a.extend(occ_items.clone());
+            (lvl(seq(f)), a, off)
+        }
+        Ctxt::InCmdBesideWords => {
+            let sub = lvl(seq(vec![sw("s", &["sub-flag"]), node]));
+            let mut f = unrelated;
+            f.push(alt(vec![many(pos("W", Ty::Str)), cmd("sub", sub)]));
             let mut a = pre;
             a.push(b"sub".to_vec());
             let off = a.len();
@@ -412,7 +426,7 @@ fn check_shape_inner(s: &Shape, ctx: &mut Ctx) -> Verdict {
                     ctx.class("catch-swallowed");
                 }
                 Outcome::Stderr(t) => {
-                    if !any_catch && !matches!(s.ctxt, Ctxt::InAlt | Ctxt::AltInStack) {
+                    if !any_catch && !matches!(s.ctxt, Ctxt::InAlt | Ctxt::AltInStack | Ctxt::InCmdBesideWords) {
                         let wanted: Vec<String> = match b.guard_msg {
                             Some(g) => vec![g.to_owned()],
                             None => conversion_errors(s.leaf, &b.invalid),
